@@ -31,6 +31,19 @@ def run(ck, tier, seed):
         ck.exhaustive = True
         ck.extra["exhaustive_note"] = ("all UTF-8 strings of <= 3 bytes (with buffer_end and NUL-terminated) were executed: "
                                        "class strings from TLC expanded over every concrete byte; 16/32-bit strings by class edges + seeded samples")
+    # boundary-structured longer buffers (4..6 units)
+    cases2 = os.path.join(tmp, "count_struct.ndjson")
+    r2 = vlib.tlc("Utf.tla", "Utf_struct.cfg", out_file=cases2, timeout=3000, coverage=False, heap="24g")
+    if r2.violation:
+        ck.violation("TLC: invariant %s of Utf (structured buffers) violated" % r2.violation,
+                     {"why": "Utf model", "trace": vlib.tlc_error_trace(r2.out)})
+        return
+    ck.add_tlc("Utf(structured 4..6 units)", r2)
+    h2 = vlib.run_harness(exe, ["utfcount", cases2, 0, seed], timeout=3000)
+    vlib.absorb(ck, h2)
+    if h2.summary:
+        ck.traces += h2.summary["extra"]["calls"]
+        ck.extra["impl"]["utfcount_structured"] = dict(h2.summary["extra"], model_drift=h2.summary["drift"])
     for s in r.emitted[500:503]:
         ck.sample({"module": "Utf", "enc": s["enc"], "buf": s["buf"], "endGiven": s["endGiven"], "wf": s["wf"], "nwf": s["nwf"]})
     # second sentence: encoding equivalence + U+FFFD resynchronisation on shaped segments
